@@ -7,7 +7,7 @@ from ..engines import labelkind as LK
 def run(ctx):
     # language-level slips in the modules the property is anchored in (engine Y)
     from ..engines import gotchas as GY
-    GY.run(ctx, ('bijection', 'specification_extrator', 'isomorphism'))
+    GY.run(ctx, ('bijection', 'specification_extrator', 'isomorphism', 'comb_spec_searcher', 'strategies.rule'))
     ctx.floor("Y", 1)
     ctx.extra["explanation"] = (
         "static analysis (ast, no execution): label-kind inference (raw start label vs "
@@ -85,3 +85,8 @@ def run(ctx):
     Q13E.k15_edges(ctx)
     ctx.floor("G2", 2)
     ctx.floor("K15", 3)
+    B.b20_each_side_walks_its_own_chain(ctx)
+    from ..engines import mapplumbing as M13
+    M13.m3_path_rule(ctx)
+    ctx.floor("B20", 2)
+    ctx.floor("M3", 3)
